@@ -36,7 +36,7 @@ func randMeta(r *engine.RNG) txfile.VerifMeta {
 			return max - 1 - uint64(r.Intn(3))
 		}
 	}
-	ps := uint32(1024 << uint(r.Intn(4)))
+	ps := uint32(1024 << uint(r.Intn(9))) // 1 KiB .. 256 KiB (the second header is found by probing page sizes)
 	return txfile.VerifMeta{
 		Magic: 0xBEA77AEB, Version: 1, PageSize: ps, Flags: uint32(r.Intn(2)),
 		MaxSize: pick(1 << 40), Txid: pick(^uint64(0)) + uint64(r.Intn(2)), MetaTotal: pick(1 << 30), // txid up to 2^64-1
